@@ -1,5 +1,6 @@
 import Hub.Model.Dump
 import Hub.Model.Monitors
+import Hub.Model.Load
 import Hub.Model.Run
 import Hub.SDK.Bech32
 import Hub.SDK.Paginate
@@ -255,8 +256,75 @@ partial def probeLoop (h : IO.FS.Stream) (out : IO.FS.Stream) : IO Unit := do
   out.putStrLn (probeLine line.trimAscii.toString)
   probeLoop h out
 
+/-! ### `--implmon`: the monitors on the *implementation's* states
+
+Reads the harness's output stream (`> op`, `R …`, `+S` and `-S` delta lines), keeps the canonical dump it
+describes, loads it into a `State` (`loadDump`) after every state-changing operation and prints
+`I <n> <monitor> | <op>` for every monitor that fails on it (n = 1-based operation index). -/
+
+structure ImplMon where
+  n : Nat := 0
+  op : String := ""
+  res : String := ""
+  hasDelta : Bool := false
+  cur : List String := []
+  time : Time := 0
+  modified : Modified := {}
+  halted : Bool := false
+
+def ImplMon.flush (m : ImplMon) : ImplMon × List String :=
+  let kind := ((m.op.splitOn " ").headD "")
+  let stateful := ["start", "begin", "end", "tx", "gov", "reimport", "dump"].contains kind
+  if m.n = 0 ∨ !stateful ∨ m.halted ∨ m.res.startsWith "halt" then (m, []) else
+  let modified : Modified := if kind = "end" then {} else m.modified
+  let l := loadDump m.cur m.time modified
+  let fails := (monitorLines l.s (kind = "end")).map fun v => s!"I {m.n} {v.drop 2} | {m.op}"
+  let bad := (l.bad.take 3).map fun b => s!"I {m.n} wellFormed {b.replace " " "_"} | {m.op}"
+  ({ m with modified := modified }, fails ++ bad)
+
+def ImplMon.feed (m : ImplMon) (line : String) : ImplMon × List String :=
+  if line.startsWith "> " then
+    let (m, outs) := m.flush
+    let op := (line.drop 2).toString
+    let parts := (op.splitOn " ").filter (· ≠ "")
+    let f := parseFields (parts.drop 1)
+    let time := if parts.headD "" = "begin" then fint f "t" else if parts.headD "" = "init" then fint f "t" else m.time
+    ({ m with n := m.n + 1, op := op, res := "", hasDelta := false, time := time,
+              halted := m.halted || m.res.startsWith "halt" }, outs)
+  else if line.startsWith "R " then
+    let res := (line.drop 2).toString
+    let parts := (m.op.splitOn " ").filter (· ≠ "")
+    let f := parseFields (parts.drop 1)
+    let md := m.modified
+    let md := if parts.headD "" = "gov" ∧ res.startsWith "accept" ∧ fget f "space" = "node" then
+      match fget f "key" with
+      | "MaxGigabytePrices" => { md with maxGB := true }
+      | "MinGigabytePrices" => { md with minGB := true }
+      | "MaxHourlyPrices" => { md with maxHr := true }
+      | "MinHourlyPrices" => { md with minHr := true }
+      | _ => md
+      else md
+    let cur := if parts.headD "" = "reimport" ∧ res.startsWith "accept" then [] else m.cur
+    ({ m with res := res, modified := md, cur := cur }, [])
+  else if line.startsWith "+S " then ({ m with cur := (line.drop 1).toString :: m.cur, hasDelta := true }, [])
+  else if line.startsWith "-S " then
+    let x := (line.drop 1).toString
+    ({ m with cur := m.cur.erase x, hasDelta := true }, [])
+  else (m, [])
+
+partial def implMonLoop (h : IO.FS.Stream) (out : IO.FS.Stream) (m : ImplMon) : IO Unit := do
+  let line ← h.getLine
+  if line.isEmpty then
+    let (_, outs) := m.flush
+    for o in outs do out.putStrLn o
+    return ()
+  let (m', outs) := m.feed (line.dropEndWhile (· = '\n')).toString
+  for o in outs do out.putStrLn o
+  implMonLoop h out m'
+
 def main (args : List String) : IO Unit := do
   let stdin ← IO.getStdin
   let stdout ← IO.getStdout
   if args.contains "--probe" then probeLoop stdin stdout
+  else if args.contains "--implmon" then implMonLoop stdin stdout {}
   else loop stdin stdout {}
